@@ -490,13 +490,17 @@ VkComponents ==
 PlansC10(st) ==
   {Plan("honest", "ref", <<>>)}
   \cup {Plan("c:value", "ref", <<ValueMove(key, "plus")>>) : key \in ClaimKeys(st)}
-  \cup {Plan("c:point", "ref", <<[M("point") EXCEPT !.pl = g.pl, !.pt2 = FreshPt]>>) : g \in RangeOf(GroupsOfStmt(st))}
+  \* (linear codes: a group of constants only is bound to the point through 4 column positions out of 4 --
+  \*  the 4^-4 corner described at StrongLabels -- and is left out)
+  \cup {Plan("c:point", "ref", <<[M("point") EXCEPT !.pl = g.pl, !.pt2 = FreshPt]>>) :
+          g \in {x \in RangeOf(GroupsOfStmt(st)) : ~LinCode(S) \/ \E j \in DOMAIN x.labels : x.labels[j] \in NonConstLabels}}
   \cup {Plan("c:commitment", "ref", <<[M(lk[2]) EXCEPT !.l = lk[1]]>>) :
           lk \in {x \in L \X {"random_comm", "random_shifted"} :
                     x[2] = "random_shifted" => (BoundOf(polys[x[1]]) # NONE /\ S # "sonic")}}
   \cup {Plan("c:bound", "ref", <<[M("relabel_bound") EXCEPT !.l = ld[1], !.d = ld[2]]>>) :
-          ld \in {x \in L \X (BoundSet(keys) \cup {NONE}) : EnforcesBounds(S) /\ ~SameBound(x[2], BoundOf(polys[x[1]]))
-                                                             /\ polys[x[1]].cls # "zero"}}
+          \* every other label, enforced or not (an unsupported label is not part of any relation: reject)
+          ld \in {x \in L \X ((IF S = "ipa" THEN BoundSet(keys) ELSE 1..pp.maxdeg) \cup BoundSet(keys) \cup {NONE}) :
+                    EnforcesBounds(S) /\ ~SameBound(x[2], BoundOf(polys[x[1]])) /\ polys[x[1]].cls # "zero"}}
   \cup {Plan("c:proof", "ref", <<ProofMut(g, c, 0)>>) : g \in DOMAIN prs[1], c \in Components}
   \* ... and in the LAST polynomial's proof entry (Hyrax, linear codes: one entry per polynomial of the group)
   \cup {Plan("c:proof", "ref", <<ProofMut(g, c, 1)>>) :
@@ -706,6 +710,11 @@ VkUsed(st) ==
       hiding == \E l \in labs \cap L : polys[l].hid # NONE /\ HonoursHiding(S)
       bounded == \E l \in labs \cap L : st.comms[l].lbound # NONE
   IN CASE st.vkmut = "" -> FALSE
+       \* PST13: beta_0 H is paired with the witness of the FIRST variable, which is the identity for a polynomial
+       \* that does not depend on that variable
+       \* (the blinding polynomial of a hiding commitment has terms in every variable)
+       [] st.vkmut = "beta_h" /\ S = "pst13" ->
+            \E l \in labs \cap L : polys[l].cls \notin {"zero", "const", "unilast"} \/ polys[l].hid # NONE
        [] st.vkmut = "gamma_g" -> hiding
        [] st.vkmut = "s" -> hiding
        \* the harness replaces the shift element of the LARGEST enforced bound
